@@ -766,6 +766,62 @@ class CmpiEqualOperands(Spec):
         return []
 
 
+# ------------------------------------------------------------------ the CSE key
+CSE = "xdsl/transforms/common_subexpression_elimination.py"
+K_NAME, K_ATTRS, K_PROPS, K_OPERANDS, K_RTYPES = (z3.Function(n, I, I) for n in ("key_name", "key_attributes", "key_properties", "key_operands", "key_result_types"))
+K_REGIONS_EQ = z3.Function("regions_pairwise_structurally_equivalent", I, I, z3.BoolSort())
+K_HASH = z3.Function("python_hash", I, I)
+
+
+class CseKey(Spec):
+    """
+    OperationInfo.__eq__ (the key CSE looks operations up with): two operations are identified ONLY IF they agree on name, attributes, PROPERTIES,
+    operands, result types and have pairwise structurally equivalent regions - whatever their hashes are (hash is uninterpreted: equal hashes
+    say nothing).  Contents are abstract codes: equal codes <=> equal dictionaries / tuples.
+    """
+
+    prop, file, qualname = PROP, CSE, "OperationInfo.__eq__"
+
+    @property
+    def globals(self):
+        def getattr_(ex, st, base, attr):
+            if base.cls == "OperationInfo" and attr == "op":
+                return VRef(base.z + 100, "Operation")
+            if base.cls == "OperationInfo" and attr == "name":
+                return VRef(K_NAME(base.z + 100), "str")
+            if base.cls == "Operation":
+                f = {"attributes": K_ATTRS, "properties": K_PROPS, "operands": K_OPERANDS, "result_types": K_RTYPES}.get(attr)
+                if f is not None:
+                    return VRef(f(base.z), "content")
+            return None
+
+        return {"__getattr__": getattr_, "__isinstance__": lambda ex, st, v, cls: True, "OperationInfo": VGlobal("OperationInfo")}
+
+    @property
+    def calls(self):
+        from pyvc.engine import Res
+
+        return {"hash": Builtin(lambda ex, st, a, k: [Res("val", VInt(K_HASH(a[0].z)), st)], "hash(x): uninterpreted")}
+
+    def setup(self, st, inst):
+        a, b = st.declare_input("self", z3.Int("self")), st.declare_input("other", z3.Int("other"))
+        return {"self": VRef(a, "OperationInfo"), "other": VRef(b, "OperationInfo")}
+
+    def bind(self, st, a, inst):
+        return {"all((s.is_structurally_equivalent(o) for s, o in zip(self.op.regions, other.op.regions, strict=True)))":
+                VBool(K_REGIONS_EQ(a["self"].z + 100, a["other"].z + 100))}
+
+    def pre(self, st, a):
+        return [A("objects", z3.And(a["self"].z > 0, a["other"].z > 0))]
+
+    def post(self, old, st, a, res):
+        x, y = a["self"].z + 100, a["other"].z + 100
+        rz = res.z if isinstance(res, VBool) else z3.BoolVal(bool(res))
+        return [C("equal-keys-agree-on-name-attributes-properties-operands-result-types-and-regions",
+                  z3.Implies(rz, z3.And(K_NAME(x) == K_NAME(y), K_ATTRS(x) == K_ATTRS(y), K_PROPS(x) == K_PROPS(y), K_OPERANDS(x) == K_OPERANDS(y),
+                                        K_RTYPES(x) == K_RTYPES(y), K_REGIONS_EQ(x, y))))]
+
+
 NATIVE = [("programs-before-after", N14.explore)]
 
 
@@ -812,6 +868,7 @@ def make_specs(tier):
             continue
         for pat in ("SignlessIntegerBinaryOperationZeroOrUnitRight", "SignlessIntegerBinaryOperationConstantProp"):
             add(IntBinaryPatterns(pat, cls), [{"cls": cls.__name__, "w": w} for w in ((1, 8, 64) if tier == "quick" else ws)])
+    add(CseKey(), [{}])
     add(FoldConst(), [{"op": o} for o in ("AddfOp", "SubfOp", "MulfOp", "DivfOp", "MaximumfOp")])
     add(CmpiEqualOperands(), [{"w": w, "pred": p, "same": True} for w in (1, 8, 64) for p in range(10)] + [{"w": 8, "pred": 2, "same": False}])
     return specs
